@@ -285,3 +285,734 @@ def power_law(case, ctx):
         Nj = np.asarray(ctx.lib(im.calc_n_cyc_array_w_power_law, a, aref, float(bj), cut_off=cut)).reshape(n, -1)[:, 0]
         ctx.close(Aarr[:, j], Aj, 1e-12 * float(Aj[-1]) + core.TINY, "array-b column %d vs scalar call (amplitude)" % j)
         ctx.close(Narr[:, j], Nj, 1e-12 * float(Nj[-1]) + core.TINY, "array-b column %d vs scalar call (cycles)" % j)
+
+
+# ---------------------------------------------------------------------------
+# mid-range sizes (DESIGN 8.5): records of 2e3 .. 3e5 samples (thorough 2e6), 20 .. n/2 switched peaks, 1 .. 2000 exponents b,
+# products n x len(b) of 1e5 .. 3e7.  Deterministic enumerations: sizes from gen.size_ladder / gen.product_pairs (one size per
+# logarithmic bin, placed by a hash of VERIF_SEED, plus the integer literals mined from the source under test); every other
+# parameter is a hash of (VERIF_SEED, tag, index).  The WHOLE output is compared with an O(n) reference built from the vectorised
+# reference peaks of pbt/ref/peaks_fast.py (cross-checked against the loops of pbt/ref/peaks.py at import).
+
+import hashlib as _hashlib  # noqa: E402
+
+from pbt.core import enum_clause  # noqa: E402
+from pbt.ref import peaks_fast as pf  # noqa: E402
+
+
+def _hu(*parts):
+    """Uniform number in [0, 1): hash of (VERIF_SEED, parts)."""
+    s = ":".join(str(p) for p in (gen.run_seed(), "c13") + parts)
+    return (int(_hashlib.blake2b(s.encode(), digest_size=8).hexdigest(), 16) % 10 ** 9) / 1e9
+
+
+def _pick(seq, *parts):
+    return seq[min(len(seq) - 1, int(_hu(*parts) * len(seq)))]
+
+
+def _logu(lo, hi, *parts):
+    return float(math.exp(math.log(lo) + (math.log(hi) - math.log(lo)) * _hu(*parts)))
+
+
+def _sd(*parts):
+    return int(_hu("seed", *parts) * (2 ** 31 - 1))
+
+
+B_SCALARS = [0.07, 0.1, 0.2, 0.3, 0.34, 0.5, 0.8, 1.0]
+CUTS = [None, 0.0, 0.01, 0.03, 0.1]       # None: the argument is omitted (default 0.01)
+UNITS = [0, 0, -7, 5]
+
+
+def _mr_series(c):
+    """Record of a mid-range case (pure function of the case).  Ordinary data that keep an error visible: noise / band-limited
+    noise / modulated sines times a slowly varying envelope (every stretch of the record contributes differently), a non-zero
+    mean, no trailing quiet stretch."""
+    n = int(c["n"])
+    rs = np.random.RandomState(int(c["seed"]))
+    t = np.arange(n, dtype=float)
+    kind = c["kind"]
+    if kind == "noise":
+        a = rs.standard_normal(n)
+    elif kind == "band":
+        # white noise through two running means (widths w and w // 2 + 1): a few switched peaks per w samples, few ripples
+        w = int(c["w"])
+        w2 = w // 2 + 1
+        cs = np.cumsum(rs.standard_normal(n + w + w2))
+        a = (cs[w:] - cs[:-w]) / math.sqrt(w)
+        cs = np.cumsum(a)
+        a = (cs[w2:] - cs[:-w2]) / math.sqrt(w2)
+    elif kind == "smooth":
+        cyc = float(c["cyc"])
+        ph = rs.uniform(0, 2 * math.pi, 3)
+        a = (np.sin(2 * math.pi * cyc * t / n + ph[0]) * (1 + 0.4 * np.sin(2 * math.pi * 3.3 * t / n + ph[1]))
+             + 0.3 * np.sin(2 * math.pi * 0.377 * cyc * t / n + ph[2]))
+    else:
+        raise ValueError(kind)
+    env = c.get("env", "up")
+    x = t / n
+    e = {"up": 0.6 + 0.8 * x, "down": 1.4 - 0.8 * x, "hump": 0.6 + 0.8 * np.sin(math.pi * x)}[env]
+    a = a * e + 0.11
+    g = int(c.get("grid", 0))
+    if g:
+        a = np.round(a * 2.0 ** g) / 2.0 ** g
+    start = c.get("start", "offset")
+    if start == "zero":
+        a[0] = 0.0
+    elif start == "lead":
+        # the record starts AT the largest value of its first excursion
+        sg = np.sign(a[1]) if a[1] != 0 else 1.0
+        other = np.flatnonzero(np.sign(a[1:]) != sg)
+        k = int(other[0]) + 1 if len(other) else n
+        a[0] = sg * 1.25 * float(np.max(np.abs(a[1:k + 1])))
+    elif a[0] == 0:
+        a[0] = 0.11
+    a = a * 2.0 ** int(c.get("unit", 0))
+    if pf.is_constant(a):
+        a[-1] += 1.0
+    return np.ascontiguousarray(a)
+
+
+def _mr_container(a, how):
+    """(argument handed to the library, the float64 values it represents)."""
+    if how == "int":
+        ai = np.round(a * 2.0 ** 20).astype(np.int64)
+        if np.all(ai == ai[0]):
+            ai[-1] += 1
+        return ai, ai.astype(float)
+    if how == "list":
+        return [float(v) for v in a], a
+    if how in ("view", "negstride", "readonly"):
+        return gen.as_container({"as": how}, a), a
+    return a.copy(), a
+
+
+def _kind_params(kind, n, *parts):
+    c = {"kind": kind}
+    if kind == "band":
+        c["w"] = int(_logu(4, 120, "w", *parts))
+    elif kind == "smooth":
+        c["cyc"] = round(_logu(8, max(10, min(3000, n / 40.0)), "cyc", *parts), 3)
+    c["env"] = _pick(["up", "down", "hump"], "env", *parts)
+    return c
+
+
+def _deal(cases, shard, nshards):
+    """Costly cases first, then dealt round-robin: shards of equal weight."""
+    order = sorted(range(len(cases)), key=lambda i: (-cases[i].get("cost", 0), i))
+    for rank, i in enumerate(order):
+        if rank % nshards == shard:
+            yield cases[i]
+
+
+def _step_index(n, sw):
+    """k[i] = number of switched peaks at or before sample i."""
+    cnt = np.zeros(n, dtype=np.int64)
+    cnt[sw] = 1
+    return np.cumsum(cnt)
+
+
+def _rel_tol(npeaks):
+    # sequential float64 summation of npeaks positive terms: relative error <= npeaks*eps of the partial sum itself; the
+    # powers (rounded exponent 1/b, |log| <= 400) add < 1e-12; 1e-10 is the module's stated tolerance for short records
+    return 1e-10 + 2 * EPS * npeaks
+
+
+def _cmp_series(ctx, got, want, rel, slack, what):
+    """Whole series: |got - want| <= rel*want + slack element-wise (want >= 0, long double)."""
+    got = np.asarray(got)
+    if got.shape != want.shape:
+        ctx.fail("%s: shape %s, expected %s" % (what, got.shape, want.shape))
+    d = np.abs(got.astype(LD) - want)
+    bad = ~(d <= rel * want + slack + core.TINY)
+    if np.any(bad):
+        i = tuple(np.argwhere(bad)[0])
+        ctx.fail("%s: |diff|=%.6g > tol=%.6g at %s of %s: got %r expected %r (%d of %d out)" % (
+            what, float(d[i]), float(rel * want[i] + slack), i, got.shape, float(got[i]), float(want[i]),
+            int(np.sum(bad)), got.size))
+
+
+def _pl_setup(ctx, c):
+    """Record, reference switched peaks and the scalar parameters of a power-law case."""
+    a0 = _mr_series(c)
+    x, a = _mr_container(a0, c.get("container", "ndarray"))
+    n = len(a)
+    sw, tie = pf.switched(a)
+    pv = np.abs(a[sw])
+    amax = float(np.max(np.abs(a)))
+    aref = float(c["aref_rel"]) * amax
+    ncyc = float(c["ncyc"])
+    cut = c.get("cut")
+    cutv = 0.01 if cut is None else float(cut)
+    ctx.cls("kind=" + c["kind"], "n>50000" if n > 50000 else "n<=50000", "start=" + c.get("start", "offset"),
+            "cut=default" if cut is None else ("cut=0" if cutv == 0 else "cut>0"), "tie" if tie else None,
+            "container=" + c.get("container", "ndarray"), "peaks>%d" % (10 ** int(math.log10(max(1, len(sw))))))
+    ctx.nt(int(np.sum(pv > 0)) >= 4)
+    amb_cut = bool(cutv > 0 and np.any(np.abs(pv / (cutv * amax) - 1) < 1e-9))
+    keep = pv >= cutv * amax
+    if cutv > 0 and np.any((pv > 0) & ~keep):
+        ctx.cls("below-cut")
+    return dict(x=x, a=a, n=n, sw=sw, tie=tie, pv=pv, amax=amax, aref=aref, ncyc=ncyc, cut=cut, cutv=cutv, keep=keep,
+                amb_cut=amb_cut, kidx=_step_index(n, sw), rel=_rel_tol(len(sw)))
+
+
+def _ncyc_call(ctx, s, b):
+    if s["cut"] is None:
+        return np.asarray(ctx.lib(im.calc_n_cyc_array_w_power_law, s["x"], s["aref"], b))
+    return np.asarray(ctx.lib(im.calc_n_cyc_array_w_power_law, s["x"], s["aref"], b, cut_off=s["cut"]))
+
+
+def _ref_n_ld(s, bj):
+    """Reference cycle series for one exponent (long double, whole record)."""
+    contrib = np.where(s["keep"], LD(0.5) * (s["pv"].astype(LD) / LD(s["aref"])) ** (LD(1) / LD(bj)), LD(0))
+    return np.concatenate([[LD(0)], np.cumsum(contrib)])[s["kidx"]]
+
+
+def _ref_a_ld(s, bj, ncyc=None):
+    ncyc = s["ncyc"] if ncyc is None else ncyc
+    contrib = LD(0.5) * s["pv"].astype(LD) ** (LD(1) / LD(bj)) / LD(ncyc)
+    return (np.concatenate([[LD(0)], np.cumsum(contrib)]) ** LD(bj))[s["kidx"]]
+
+
+def _slack_n(s, bj):
+    # the library counts a below-cut-off peak as 0.5*(1e-14/a_ref)^(1/b) cycles instead of 0 (ASSUMPTIONS)
+    return len(s["sw"]) * 0.5 * (1e-14 / s["aref"]) ** (1.0 / float(bj)) if s["cutv"] > 0 else 0.0
+
+
+def _check_n_col(ctx, s, col, bj, what):
+    n = s["n"]
+    ctx.check(col.shape == (n,), "%s: cycle series has shape %s, record %d" % (what, col.shape, n))
+    ctx.finite(col, what)
+    ctx.check(bool(np.all(np.diff(col) >= 0)), "%s: equivalent number of cycles is not non-decreasing" % what)
+    want = _ref_n_ld(s, bj)
+    if s["amb_cut"]:
+        ctx.amb()
+    elif s["tie"]:
+        _cmp_series(ctx, col[-1:], want[-1:], s["rel"], _slack_n(s, bj), what + " (end of record)")
+    else:
+        _cmp_series(ctx, col, want, s["rel"], _slack_n(s, bj), what + " vs reference (b=%r, cut_off=%r, a_ref=%r)" % (
+            float(bj), s["cut"], s["aref"]))
+
+
+def _check_a_col(ctx, s, col, bj, what, factor=1.0, ncyc=None):
+    n = s["n"]
+    ctx.check(col.shape == (n,), "%s: amplitude series has shape %s, record %d" % (what, col.shape, n))
+    ctx.finite(col, what)
+    ctx.check(bool(np.all(np.diff(col) >= 0)), "%s: equivalent uniform amplitude is not non-decreasing" % what)
+    want = _ref_a_ld(s, bj, ncyc) * LD(factor)
+    if s["tie"]:
+        _cmp_series(ctx, col[-1:], want[-1:], s["rel"], 0.0, what + " (end of record)")
+    else:
+        _cmp_series(ctx, col, want, s["rel"], 0.0, what + " vs reference (b=%r)" % float(bj))
+
+
+def _b_arg(c):
+    """Exponent argument of a case: python float / numpy scalar / int 1 / ndarray (contiguous, strided, read-only)."""
+    spec = c["b"]
+    if not isinstance(spec, dict):
+        return float(spec), [float(spec)], False
+    if spec["form"] == "npfloat":
+        return np.float64(spec["v"]), [float(spec["v"])], False
+    if spec["form"] == "int1":
+        return 1, [1.0], False
+    m = int(spec["m"])
+    rs = np.random.RandomState(int(spec["seed"]))
+    fill = spec["fill"]
+    if fill == "linspace":
+        lo, hi = sorted(rs.uniform(0.08, 1.0, 2))
+        v = np.linspace(lo, max(hi, lo + 0.05), m)
+    elif fill == "random":
+        v = rs.uniform(0.08, 1.0, m)
+    elif fill == "repeat":
+        # a flattened parameter grid: few distinct values, each many times, unsorted
+        v = rs.choice(rs.uniform(0.08, 1.0, max(1, min(7, m // 2))), size=m)
+    elif fill == "const":
+        v = np.full(m, float(rs.uniform(0.08, 1.0)))
+    elif fill == "ones-int":
+        return np.ones(m, dtype=np.int64), [1.0] * m, True
+    else:
+        raise ValueError(fill)
+    v = np.minimum(1.0, v)
+    lay = spec.get("layout", "c")
+    if lay == "strided":
+        buf = np.full(2 * m, 0.77)
+        buf[0::2] = v
+        arg = buf[0::2]
+    elif lay == "readonly":
+        arg = v.copy()
+        arg.flags.writeable = False
+    else:
+        arg = v.copy()
+    return arg, [float(q) for q in v], True
+
+
+# ---- 3. mid-range: record length x peak density x function group ---------------------------------------------------------
+
+def _mid_sizes(tier):
+    """(sizes of the power-law groups, sizes of the cheap total-variation group).  The last rung is an anchor just above the
+    nominal end of the range, so that a window that opens anywhere below the end is entered by at least one record."""
+    if tier == "quick":
+        top = int(300000 * (1 + 0.1 * _hu("top")))
+        return (sorted(set(gen.size_ladder(2000, 300000, 14, "c13:n")) | {top}),
+                sorted(set(gen.size_ladder(2000, 300000, 24, "c13:n:tv")) | {top + 1}))
+    top = int(2000000 * (1 + 0.05 * _hu("top:t")))
+    return (sorted(set(gen.size_ladder(2000, 2000000, 30, "c13:n:t", mined_limit=16)) | set(gen.ladder(2000, 300000, 14, "c13:n")) | {top}),
+            sorted(set(gen.size_ladder(2000, 2000000, 60, "c13:n:tv:t", mined_limit=16)) | set(gen.ladder(2000, 300000, 24, "c13:n:tv")) | {top + 1}))
+
+
+def _mid_cases(tier):
+    sizes, sizes_tv = _mid_sizes(tier)
+    cases = []
+    for i, n in enumerate(sizes_tv):
+        for kind in ("smooth", "band", "noise"):
+            base = dict(n=int(n), seed=_sd("mid-tv", i, kind), group="tv", cost=0.05 * n, **_kind_params(kind, n, "mid-tv", i, kind))
+            # total-variation functions (no Python loop in the library: cheap): real data and exact (dyadic grid / integer) data
+            cases.append(dict(base, start=_pick(["zero", "offset", "offset", "lead"], "tvs", i, kind), grid=0,
+                              container=_pick(["ndarray", "ndarray", "list"], "tvc", i, kind)))
+            cases.append(dict(base, seed=_sd("mid-tvx", i, kind), start=_pick(["zero", "offset", "offset", "lead"], "tvsx", i, kind),
+                              grid=_pick([3, 10], "tvg", i, kind), container=_pick(["ndarray", "int", "list"], "tvcx", i, kind),
+                              shift=_pick([1024.0, -2.5, 1.0, -0.375], "tvo", i, kind)))
+    for i, n in enumerate(sizes):
+        for kind in ("smooth", "band", "noise"):
+            per_sample = {"smooth": 0.05, "band": 0.4, "noise": 1.8}[kind]       # micro-seconds per library peak walk
+            base = dict(n=int(n), seed=_sd("mid", i, kind), **_kind_params(kind, n, "mid", i, kind))
+            # power-law functions
+            pl = dict(base, start=_pick(["zero", "zero", "offset", "lead"], "pls", i, kind), unit=_pick(UNITS, "plu", i, kind),
+                      aref_rel=round(_logu(0.05, 20.0, "plr", i, kind), 6), ncyc=round(_logu(0.5, 50.0, "pln", i, kind), 6),
+                      container=_pick(["ndarray", "ndarray", "ndarray", "int", "readonly"], "plc", i, kind))
+            if _hu("plb", i, kind) < 0.6:
+                b = _pick(B_SCALARS, "plbs", i, kind) if _hu("plb2", i, kind) < 0.5 else round(0.06 + 0.94 * _hu("plb3", i, kind), 4)
+            else:
+                b = {"form": "array", "m": 1 + int(3 * _hu("plbm", i, kind)), "fill": _pick(["random", "repeat", "linspace"], "plbf", i, kind),
+                     "seed": _sd("plb", i, kind), "layout": "c"}
+            cases.append(dict(pl, group="single", b=b, cut=_pick(CUTS, "plcut", i, kind), cost=3 * per_sample * n))
+            bs = _pick(B_SCALARS, "plbp", i, kind) if _hu("plbp2", i, kind) < 0.5 else round(0.06 + 0.94 * _hu("plbp3", i, kind), 4)
+            pair = dict(pl, b=bs, seed=_sd("mid-pair", i, kind), start=_pick(["zero", "offset", "lead"], "pps", i, kind))
+            if kind != "smooth" and n > 20000:
+                # the library walks over every local peak in Python (~2 micro-seconds each, four walks for the two functions):
+                # long wiggly records get one of the two functions, alternately
+                which = _pick(["comb", "gm"], "ppw", i, kind)
+                cases.append(dict(pair, group=which, cost=2 * per_sample * n))
+            else:
+                cases.append(dict(pair, group="pair", cost=4 * per_sample * n))
+    return cases
+
+
+def _mid_enum(tier, shard, nshards):
+    return _deal(_mid_cases(tier), shard, nshards)
+
+
+def _tv_check(ctx, c):
+    a0 = _mr_series(dict(c, unit=0))
+    how = c.get("container", "ndarray")
+    if how == "int":
+        a0 = np.round(a0 * 1024.0)
+        if pf.is_constant(a0):
+            a0[-1] += 1.0
+        x = a0.astype(np.int64)
+    elif how == "list":
+        x = [float(v) for v in a0]
+    else:
+        x = a0.copy()
+    a = a0
+    n = len(a)
+    exact = how == "int" or int(c.get("grid", 0)) > 0
+    lp = pf.local_peak_indices(a)
+    has_plateau = bool(np.any(a[1:] == a[:-1]))
+    ctx.cls("kind=" + c["kind"], "n>50000" if n > 50000 else "n<=50000", "as=" + how, "exact" if exact else "real",
+            "plateau" if has_plateau else None, "start=" + c.get("start", "offset"))
+    ctx.nt(len(lp) >= 3)
+    snap = list(x) if isinstance(x, list) else x.copy()
+    d = np.asarray(ctx.lib(pk.determine_peaks_only_delta_series, x))
+    cs = np.asarray(ctx.lib(pk.determine_pseudo_cyclic_peak_only_series, x))
+    same = (x == snap) if isinstance(x, list) else np.array_equal(x, snap)
+    ctx.check(bool(same), "input series was modified")
+    ctx.shape(d, (n,), "peaks-only delta series")
+    ctx.shape(cs, (n,), "pseudo-cyclic peak series")
+    al = a.astype(LD)
+    big = float(np.max(np.abs(a)))
+    tv = np.sum(np.abs(np.diff(al)))
+    off = al[-1] - al[0]
+    pvals = al[lp]
+    moves = np.diff(pvals)                       # movement into reported peak j (j >= 1): monotone between reported peaks
+    last_dir = np.sign(moves[-1])
+    ambiguous = False
+    if not exact and a[0] != 0:
+        # a difference smaller than the rounding of (x - x[0]) decides where a turning point is: the peak positions are then
+        # ambiguous in floating point and only the sums are asserted (as in the clause total-variation)
+        lp2 = pf.local_peak_indices(a - a[0])
+        ambiguous = not np.array_equal(lp, lp2)
+    dl = d.astype(LD)
+    cl_ = cs.astype(LD)
+    if ambiguous:
+        ctx.amb()
+        tol = 4 * EPS * n * (float(tv) + big)
+        ctx.check(abs(float(np.sum(np.abs(dl)) - tv)) <= tol, "sum|delta| = %r but the total variation is %r" % (float(np.sum(np.abs(dl))), float(tv)))
+        ctx.check(abs(abs(float(np.sum(dl))) - abs(float(off))) <= tol, "|sum delta| = %r but |x[-1]-x[0]| = %r" % (abs(float(np.sum(dl))), abs(float(off))))
+        return
+    # rounding (real data): the rebased values x - x[0] carry eps/2*|x - x[0]| <= eps*max|x| each, a difference of two of them
+    # and its own rounding < 4*eps*max|x|; sums over the reported peaks accordingly
+    tol_el = 0.0 if exact else 4 * EPS * big
+    tol_sum = 0.0 if exact else 4 * EPS * big * len(lp)
+    away = np.ones(n, dtype=bool)
+    away[lp] = False
+    for name, ser in (("delta", d), ("pseudo-cyclic", cs)):
+        nzaway = np.flatnonzero(ser[away] != 0)
+        if len(nzaway):
+            ctx.fail("%s series is non-zero away from reported peaks: e.g. index %d (%d such samples)" % (
+                name, int(np.flatnonzero(away)[nzaway[0]]), len(nzaway)))
+    # whole output = the statement applied to every prefix that ends at a reported peak: |delta| at a reported peak is the
+    # variation since the previous one, its sign (relative to the movement) is the same for the whole record
+    dp = dl[lp[1:]]
+    e_pos = np.abs(dp - moves)
+    e_neg = np.abs(dp + moves)
+    if not (np.all(e_pos <= tol_el) or np.all(e_neg <= tol_el)):
+        w_ = e_pos if np.sum(e_pos <= tol_el) >= np.sum(e_neg <= tol_el) else e_neg
+        j = int(np.flatnonzero(~(w_ <= tol_el))[0])
+        ctx.fail("delta series at reported peak %d (index %d of %d): %r, but the series moved by %r since the previous reported peak (index %d); %d of %d peaks differ" % (
+            j + 1, int(lp[j + 1]), n, float(dp[j]), float(moves[j]), int(lp[j]), int(np.sum(~(w_ <= tol_el))), len(dp)))
+    ctx.check(abs(float(dl[lp[0]])) <= tol_el, "delta series at the first sample is %r" % float(dl[lp[0]]))
+    sabs = np.sum(np.abs(dl))
+    ctx.check(abs(float(sabs - tv)) <= tol_sum, "sum|delta| = %r but the total variation is %r" % (float(sabs), float(tv)))
+    ctx.check(abs(abs(float(np.sum(dl))) - abs(float(off))) <= tol_sum, "|sum delta| = %r but |x[-1]-x[0]| = %r" % (abs(float(np.sum(dl))), abs(float(off))))
+    # pseudo-cyclic: the prefix law (sum up to a reported peak = TV/2 + sign(movement into it)*(x - x[0])/2) gives the entry at
+    # reported peak j as sign(movement into it) * (x[peak] - x[0])
+    want_c = np.sign(moves) * (pvals[1:] - al[0])
+    e_c = np.abs(cl_[lp[1:]] - want_c)
+    if not np.all(e_c <= tol_el):
+        j = int(np.flatnonzero(~(e_c <= tol_el))[0])
+        ctx.fail("pseudo-cyclic series at reported peak %d (index %d of %d): %r, expected sign(movement)*(x - x[0]) = %r; %d of %d peaks differ" % (
+            j + 1, int(lp[j + 1]), n, float(cl_[lp[j + 1]]), float(want_c[j]), int(np.sum(~(e_c <= tol_el))), len(e_c)))
+    ctx.check(abs(float(cl_[lp[0]])) <= tol_el, "pseudo-cyclic series at the first sample is %r" % float(cl_[lp[0]]))
+    want_sum = tv / 2 + last_dir * off / 2
+    ctx.check(abs(float(np.sum(cl_) - want_sum)) <= tol_sum,
+              "pseudo-cyclic series sums to %r, expected TV/2 + sign(final movement)*(end-start)/2 = %r" % (float(np.sum(cl_)), float(want_sum)))
+    if exact:
+        if how == "int":
+            x2 = x + np.int64(2 ** 55 + 7)
+            what = "an integer shift of 2^55+7"
+        else:
+            x2 = a + float(c.get("shift", 1024.0))
+            x2 = [float(v) for v in x2] if how == "list" else x2
+            what = "a constant shift of %r" % c.get("shift", 1024.0)
+        ctx.equal(ctx.lib(pk.determine_peaks_only_delta_series, x2), d, "delta series after " + what)
+        ctx.equal(ctx.lib(pk.determine_pseudo_cyclic_peak_only_series, x2), cs, "pseudo-cyclic series after " + what)
+        ctx.cls("shifted")
+
+
+def _single_check(ctx, c):
+    s = _pl_setup(ctx, c)
+    b, bvals, is_arr = _b_arg(c)
+    n = s["n"]
+    ctx.cls("b=array" if is_arr else "b=scalar")
+    ns = _ncyc_call(ctx, s, b)
+    ctx.check(ns.ndim >= 1 and ns.shape[0] == n and ns.size == n * len(bvals), "cycle series has shape %s, record %d, %d exponent(s)" % (ns.shape, n, len(bvals)))
+    ns = ns.reshape(n, -1)
+    As = np.asarray(ctx.lib(im.calc_cyc_amp_array_w_power_law, s["x"], s["ncyc"], b))
+    ctx.shape(As, (n, len(bvals)) if is_arr else (n,), "equivalent amplitude series")
+    As = As.reshape(n, -1)
+    for j, bj in enumerate(bvals):
+        _check_n_col(ctx, s, ns[:, j], bj, "equivalent number of cycles (column %d)" % j)
+        _check_a_col(ctx, s, As[:, j], bj, "equivalent uniform amplitude (column %d)" % j)
+    # mutually inverse at the end of the record
+    j = len(bvals) - 1
+    n_end = float(ns[-1, j])
+    if n_end > 0 and np.isfinite(n_end):
+        back = float(np.asarray(ctx.lib(im.calc_cyc_amp_array_w_power_law, s["x"], n_end, b)).reshape(n, -1)[-1, j])
+        tol = max(1e-9, 4 * s["rel"]) * s["aref"]
+        if s["cutv"] == 0:
+            ctx.check(abs(back - s["aref"]) <= tol, "A(N(a_ref)) = %r but a_ref = %r (b=%r)" % (back, s["aref"], bvals[j]))
+        else:
+            ctx.check(back >= s["aref"] - tol, "A(N(a_ref)) = %r < a_ref = %r with cut_off=%r" % (back, s["aref"], s["cutv"]))
+
+
+def _pair_check(ctx, c, which):
+    s = _pl_setup(ctx, dict(c, cut=0.0))
+    b = float(c["b"])
+    x2 = s["x"].copy()
+    if which in ("pair", "comb"):
+        comb = np.asarray(ctx.lib(im.calc_cyc_amp_combined_arrays_w_power_law, s["x"], x2, s["ncyc"], b))
+        _check_a_col(ctx, s, comb, b, "combined amplitude of two identical components vs 2^b * single", factor=2.0 ** b)
+    if which in ("pair", "gm"):
+        gmv = np.asarray(ctx.lib(im.calc_cyc_amp_gm_arrays_w_power_law, s["x"], x2, s["ncyc"], b))
+        _check_a_col(ctx, s, gmv, b, "geometric-mean amplitude of two identical components vs single")
+
+
+@enum_clause(CLAUSES, "mid-range", _mid_enum,
+             rule="record lengths gen.size_ladder(2000, 300000, 14) (thorough: to 2 000 000, 30 + 14 rungs; plus lengths aimed at the integer "
+                  "literals of the source) x three peak densities (modulated sines with 8..3000 cycles, band-limited noise, white noise with n/2 "
+                  "switched peaks) x function groups {both peak-only series | N, A and their inverse | combined and geometric mean}; "
+                  "start at zero / offset / first-value-is-peak, float64 / int64 / list / read-only containers, exact (dyadic grid) and real "
+                  "data, cut_off omitted / 0 / > 0, scalar b and arrays of 1..3, units 2^-7 .. 2^5 by hash of (VERIF_SEED, index); "
+                  "non-trivial = >= 3 reported / >= 4 switched peaks",
+             oracle="reference model over the WHOLE output (vectorised reference peaks cross-checked against the loops at import; long-double "
+                    "cumulative sums): peak-only series element-wise at every reported peak (equality on exact data, 4 eps max|x| otherwise), zero "
+                    "elsewhere, sums, shift invariance; N and A element-wise to (1e-10 + 2 eps n_peaks) relative, non-decreasing, length; "
+                    "A(N(a_ref))[-1] == a_ref; combined(x, x) == 2^b single, gm(x, x) == single over the whole series",
+             exhaustive_note="deterministic size ladder: one record length per logarithmic bin of [2000, 300000] (thorough [2000, 2000000]) "
+                             "and per mined literal, each with three peak densities and three function groups",
+             require={"kind=noise": 0.2, "kind=smooth": 0.2, "n>50000": 0.1}, min_nontrivial=0.9, quick_shards=4)
+def mid_range(case, ctx):
+    g = case["group"]
+    ctx.cls("group=" + g)
+    if g == "tv":
+        _tv_check(ctx, case)
+    elif g == "single":
+        _single_check(ctx, case)
+    else:
+        _pair_check(ctx, case, g)
+
+
+# ---- 4. mid-range-products: number of exponents and the product record length x number of exponents -----------------------
+
+PROD_A_MAX = {"quick": 1.6e7, "thorough": 3.0e7}     # calc_cyc_amp_array_w_power_law holds ~4 temporaries of n x len(b) doubles
+PROD_N_MAX = {"quick": 3.0e7, "thorough": 5.0e7}
+
+
+def _prod_kind(n, m, *parts):
+    """Peak density such that (number of switched peaks) x m stays affordable for the reference (<= ~4e6 powers)."""
+    room = 4e6 / m                      # affordable number of switched peaks
+    opts = ["smooth"]
+    if n / 2.0 <= room:
+        opts += ["noise", "noise", "band"]
+    elif n / 12.0 <= room:
+        opts += ["band", "band"]
+    kind = _pick(opts, "pk", *parts)
+    c = _kind_params(kind, n, "prod", *parts)
+    if kind == "smooth":
+        c["cyc"] = round(min(c["cyc"], max(8.0, room / 4.0)), 3)
+    if kind == "band":
+        c["w"] = max(c["w"], 12)
+    return c
+
+
+def _prod_cases(tier):
+    quick = tier == "quick"
+    pairs = []
+    # (a) the number of exponents: 1 .. 2000 (thorough 5000) with a record of a few thousand samples
+    ms = gen.size_ladder(1, 2000, 10, "c13:m") if quick else sorted(set(gen.size_ladder(1, 5000, 24, "c13:m:t", mined_limit=16)) | set(gen.ladder(1, 2000, 10, "c13:m")))
+    for i, m in enumerate(ms):
+        n = int(_logu(2000, max(2500, min(30000, 3e6 / m)), "mn", i))
+        pairs.append((n, int(m), "m%d" % i))
+    # (b) the product: 1e5 .. 3e7, split by hash between the two dimensions
+    pp = gen.product_pairs(1e5, 3e7, 12, (2000, 300000), (2, 2000), "c13:nb") if quick else (
+        gen.product_pairs(1e5, 5e7, 30, (2000, 2000000), (2, 5000), "c13:nb:t") + gen.product_pairs(1e5, 3e7, 12, (2000, 300000), (2, 2000), "c13:nb"))
+    for i, (n, m) in enumerate(pp):
+        pairs.append((int(n), int(m), "p%d" % i))
+    cases = []
+    for (n, m, tag) in pairs:
+        prod = n * m
+        base = dict(n=n, seed=_sd("prod", tag), start=_pick(["zero", "offset", "lead"], "prs", tag), unit=_pick(UNITS, "pru", tag),
+                    aref_rel=round(_logu(0.05, 20.0, "prr", tag), 6), ncyc=round(_logu(0.5, 50.0, "prn", tag), 6), **_prod_kind(n, m, tag))
+        b = {"form": "array", "m": m, "fill": _pick(["linspace", "random", "repeat", "repeat", "const"], "prf", tag) if m > 1 else "random",
+             "seed": _sd("prb", tag), "layout": _pick(["c", "c", "strided", "readonly"], "prl", tag)}
+        fns = []
+        if prod <= PROD_N_MAX[tier]:
+            fns.append("N")
+        if prod <= PROD_A_MAX[tier]:
+            fns.append("A")
+        if prod <= 3e6 and _hu("prg", tag) < 0.5:
+            fns.append("gm")
+        for fn in fns:
+            cases.append(dict(base, group=fn, b=b, cut=_pick(CUTS, "prc", tag, fn), cost={"N": 0.03, "A": 0.12, "gm": 0.25}[fn] * prod))
+    return cases
+
+
+def _prod_enum(tier, shard, nshards):
+    return _deal(_prod_cases(tier), shard, nshards)
+
+
+def _seam_columns(m, *parts):
+    """A handful of columns: first, last, hash-chosen ones and neighbours of multiples of 2^k (seams of a column-blocked loop)."""
+    cols = {0, m - 1, int(_hu("col", 0, *parts) * m), int(_hu("col", 1, *parts) * m)}
+    for k in (5, 7, 9, 10):
+        if m > 2 ** k + 1:
+            q = 2 ** k * (1 + int(_hu("seam", k, *parts) * ((m - 2) // 2 ** k)))
+            cols.update({q - 1, q})
+    return sorted(j for j in cols if 0 <= j < m)
+
+
+def _matrix_check(ctx, s, out, bvals, mode, what, ncyc=None):
+    """Whole (n x m) output against the step series of the reference: all rows, all columns.
+
+    Reference per block of columns: float64 powers of the reference peaks (their number is small compared with n), long-double
+    cumulative sums over the peaks, expanded to the record by the step index; non-decreasing along the record."""
+    n, m = s["n"], len(bvals)
+    ctx.shape(out, (n, m), what)
+    bv = np.array(bvals, dtype=float)
+    pv = s["pv"]
+    npk = len(pv)
+    rel = s["rel"] + 8 * EPS            # the float64 powers of the reference: a few ulp
+    ncyc = s["ncyc"] if ncyc is None else ncyc
+    if mode == "N" and s["amb_cut"]:
+        ctx.amb()
+        return
+    colblk = max(1, int(4e6 // (npk + 1)))
+    rowblk = max(1, int(2e6 // min(m, colblk)))
+    kidx = s["kidx"]
+    for j0 in range(0, m, colblk):
+        j1 = min(m, j0 + colblk)
+        e = 1.0 / bv[j0:j1]
+        if mode == "N":
+            contrib = 0.5 * (pv / s["aref"])[:, None] ** e[None, :]
+            contrib[~s["keep"], :] = 0.0
+            slack = np.array([_slack_n(s, q) for q in bv[j0:j1]])
+        else:
+            contrib = 0.5 * pv[:, None] ** e[None, :] / ncyc
+            slack = np.zeros(j1 - j0)
+        cum = np.concatenate([np.zeros((1, j1 - j0), dtype=LD), np.cumsum(contrib.astype(LD), axis=0)], axis=0)
+        step = cum.astype(float)
+        if mode != "N":
+            step = step ** bv[j0:j1][None, :]
+        del contrib, cum
+        if s["tie"]:
+            rows = [(n - 1, n)]
+        else:
+            rows = [(i0, min(n, i0 + rowblk)) for i0 in range(0, n, rowblk)]
+        for (i0, i1) in rows:
+            got = out[i0:i1, j0:j1]
+            if not np.all(np.isfinite(got)):
+                ctx.fail("%s: non-finite values in rows %d..%d" % (what, i0, i1))
+            want = step[kidx[i0:i1]]
+            bad = ~(np.abs(got - want) <= rel * want + slack[None, :] + core.TINY)
+            if np.any(bad):
+                r, q = [int(v) for v in np.argwhere(bad)[0]]
+                ctx.fail("%s: row %d of %d, column %d of %d (b=%r): got %r, reference %r (tol %.3g relative; %d entries of this block out)" % (
+                    what, i0 + r, n, j0 + q, m, float(bv[j0 + q]), float(got[r, q]), float(want[r, q]), rel, int(np.sum(bad))))
+        # non-decreasing along the record: everything
+        for i0 in range(0, n - 1, rowblk):
+            i1 = min(n, i0 + rowblk + 1)
+            blk = out[i0:i1, j0:j1]
+            if not np.all(blk[1:] >= blk[:-1]):
+                r, q = [int(v) for v in np.argwhere(~(blk[1:] >= blk[:-1]))[0]]
+                ctx.fail("%s: decreases between rows %d and %d in column %d" % (what, i0 + r, i0 + r + 1, j0 + q))
+
+
+def _prod_check(ctx, c):
+    s = _pl_setup(ctx, c)
+    b, bvals, _ = _b_arg(c)
+    n, m = s["n"], len(bvals)
+    mode = c["group"]
+    ctx.cls("m>%d" % (10 ** int(math.log10(m))) if m > 1 else "m=1", "product>%.0e" % (10 ** int(math.log10(n * m))),
+            "b:" + c["b"]["fill"], "b-layout:" + c["b"].get("layout", "c"))
+    bsnap = np.array(b, copy=True)
+    if mode == "N":
+        out = _ncyc_call(ctx, s, b)
+        name = "cycle series for array b"
+    elif mode == "A":
+        out = np.asarray(ctx.lib(im.calc_cyc_amp_array_w_power_law, s["x"], s["ncyc"], b))
+        name = "amplitude series for array b"
+    else:
+        out = np.asarray(ctx.lib(im.calc_cyc_amp_gm_arrays_w_power_law, s["x"], s["x"].copy(), s["ncyc"], b))
+        name = "geometric-mean amplitude of two identical components for array b"
+    ctx.check(np.array_equal(bsnap, np.asarray(b)), "the array of exponents was modified")
+    _matrix_check(ctx, s, out, bvals, "N" if mode == "N" else "A", name)
+    cols = _seam_columns(m, c["seed"])
+    for j in cols[:8]:
+        # accurate (long-double) reference, whole column
+        if mode == "N":
+            _check_n_col(ctx, s, np.ascontiguousarray(out[:, j]), bvals[j], "%s, column %d of %d" % (name, j, m))
+        else:
+            _check_a_col(ctx, s, np.ascontiguousarray(out[:, j]), bvals[j], "%s, column %d of %d" % (name, j, m))
+    # differential: column j equals the scalar call with b[j] (one hash-chosen column; the walk over the peaks is slow)
+    j = cols[len(cols) // 2]
+    if mode == "N":
+        if s["cut"] is None:
+            one = np.asarray(ctx.lib(im.calc_n_cyc_array_w_power_law, s["x"], s["aref"], float(bvals[j]))).reshape(n, -1)[:, 0]
+        else:
+            one = np.asarray(ctx.lib(im.calc_n_cyc_array_w_power_law, s["x"], s["aref"], float(bvals[j]), cut_off=s["cut"])).reshape(n, -1)[:, 0]
+    else:
+        one = np.asarray(ctx.lib(im.calc_cyc_amp_array_w_power_law, s["x"], s["ncyc"], float(bvals[j])))
+    ctx.close(out[:, j], one, 1e-12 * np.abs(one) + core.TINY, "array-b column %d vs scalar call (%s)" % (j, name))
+    # mutually inverse at the end of the record, two columns (small products only: every call is O(n x m))
+    if mode == "N" and n * m <= 2e6 and s["cutv"] == 0 and not s["amb_cut"]:
+        for j in (cols[0], cols[-1]):
+            n_end = float(out[-1, j])
+            if n_end > 0 and np.isfinite(n_end):
+                back = float(np.asarray(ctx.lib(im.calc_cyc_amp_array_w_power_law, s["x"], n_end, b))[-1, j])
+                ctx.check(abs(back - s["aref"]) <= max(1e-9, 4 * s["rel"]) * s["aref"],
+                          "A(N(a_ref)) = %r but a_ref = %r (column %d, b=%r)" % (back, s["aref"], j, bvals[j]))
+        ctx.cls("inverse")
+
+
+@enum_clause(CLAUSES, "mid-range-products", _prod_enum,
+             rule="(a) number of exponents gen.size_ladder(1, 2000, 10) (thorough 1..5000, 24 + 10 rungs) with records of 2000..30000 samples, "
+                  "(b) gen.product_pairs: n x len(b) from 1e5 to 3e7 (thorough 5e7; A up to 1.6e7 / 3e7) with n in 2000..300000 (2e6) and "
+                  "len(b) in 2..2000 (5000); peak density by hash among sines / band-limited noise / white noise as far as "
+                  "n_peaks x len(b) <= 4e6; b arrays sorted / random / with repeated entries (a flattened grid) / constant, contiguous / strided "
+                  "/ read-only; cut_off omitted / 0 / > 0; functions N, A and (products <= 3e6) the geometric mean of identical components",
+             oracle="reference model over the WHOLE (n x len(b)) output: float64 powers of the reference switched peaks, long-double cumulative "
+                    "sums, expanded by the step index - every row and column to (1e-10 + 2 eps n_peaks) relative, non-decreasing everywhere; "
+                    "up to 8 columns (first, last, hashed, neighbours of multiples of 2^k) against the all-long-double reference; one column "
+                    "against the scalar call (1e-12); A(N(a_ref))[-1] == a_ref in two columns (products <= 2e6)",
+             exhaustive_note="deterministic ladders: one number of exponents per logarithmic bin of [1, 2000] and one product per logarithmic bin "
+                             "of [1e5, 3e7] (thorough [1, 5000], [1e5, 5e7]), plus the sizes aimed at mined literals",
+             require={"b:repeat": 0.1}, min_nontrivial=0.9, quick_shards=4)
+def mid_range_products(case, ctx):
+    ctx.cls("group=" + case["group"])
+    _prod_check(ctx, case)
+
+
+# ---- 5. mid-range-options: cross product of cut_off x form of b x container x start ------------------------------------
+
+OPT_CUTS = [None, 0.0, 0.03, 0.1]
+OPT_B = ["float", "npfloat", "int1", "array1", "array3r", "array-strided", "array-int"]
+OPT_CONT = ["ndarray", "int", "readonly", "view", "negstride"]
+OPT_START = ["zero", "offset", "lead"]
+
+
+def _opt_cases(tier):
+    cases = []
+    reps = 1 if tier == "quick" else 3
+    i = 0
+    for rep in range(reps):
+        for cut in OPT_CUTS:
+            for bform in OPT_B:
+                for cont in OPT_CONT:
+                    for start in OPT_START:
+                        i += 1
+                        n = int(_logu(2200, 9000 if tier == "quick" else 60000, "on", i))
+                        kind = _pick(["band", "band", "smooth", "noise"], "ok", i)
+                        seed = _sd("opt", i)
+                        if bform == "float":
+                            b = round(0.06 + 0.94 * _hu("ob", i), 4)
+                        elif bform == "npfloat":
+                            b = {"form": "npfloat", "v": _pick(B_SCALARS, "ob", i)}
+                        elif bform == "int1":
+                            b = {"form": "int1"}
+                        elif bform == "array1":
+                            b = {"form": "array", "m": 1, "fill": "random", "seed": seed, "layout": "c"}
+                        elif bform == "array3r":
+                            b = {"form": "array", "m": 3 + int(4 * _hu("obm", i)), "fill": "repeat", "seed": seed, "layout": "readonly"}
+                        elif bform == "array-strided":
+                            b = {"form": "array", "m": 2 + int(5 * _hu("obm", i)), "fill": "random", "seed": seed, "layout": "strided"}
+                        else:
+                            b = {"form": "array", "m": 1 + int(3 * _hu("obm", i)), "fill": "ones-int", "seed": seed}
+                        cases.append(dict(n=n, seed=seed, start=start, container=cont, cut=cut, b=b, bform=bform,
+                                          unit=_pick(UNITS, "ou", i), aref_rel=round(_logu(0.05, 20.0, "or", i), 6),
+                                          ncyc=round(_logu(0.5, 50.0, "onc", i), 6), cost=n, **_kind_params(kind, n, "opt", i)))
+    return cases
+
+
+def _opt_enum(tier, shard, nshards):
+    return _deal(_opt_cases(tier), shard, nshards)
+
+
+@enum_clause(CLAUSES, "mid-range-options", _opt_enum,
+             rule="full cross product cut_off {omitted, 0, 0.03, 0.1} x exponent {float, numpy scalar, int 1, array of 1, array with repeated "
+                  "entries (read-only), strided array, integer array of ones} x container {float64, int64, read-only, strided view, negative "
+                  "stride} x start {zero, offset, first-value-is-peak} (420 cases; thorough 3 x with other data), records of 2200..9000 "
+                  "(thorough 60000) samples, keyword / positional spelling by the case's hash",
+             oracle="as mid-range: N and A over the whole series against the long-double reference, inverse at the end of the record; for scalar "
+                    "exponents also combined(x, x) == 2^b single and gm(x, x) == single; arguments unchanged",
+             exhaustive_note="every combination of the four option dimensions (4 x 7 x 5 x 3)",
+             min_nontrivial=0.9, quick_shards=4)
+def mid_range_options(case, ctx):
+    ctx.cls("bform=" + case["bform"])
+    _single_check(ctx, case)
+    if not isinstance(case["b"], dict) or case["b"]["form"] in ("npfloat", "int1"):
+        s = _pl_setup(core.Ctx(), dict(case, cut=0.0))
+        b = _b_arg(case)[0]
+        comb = np.asarray(ctx.lib(im.calc_cyc_amp_combined_arrays_w_power_law, s["x"], s["x"].copy(), s["ncyc"], b))
+        _check_a_col(ctx, s, comb, float(b), "combined amplitude of two identical components vs 2^b * single", factor=2.0 ** float(b))
+        gmv = np.asarray(ctx.lib(im.calc_cyc_amp_gm_arrays_w_power_law, s["x"], s["x"].copy(), s["ncyc"], b))
+        _check_a_col(ctx, s, gmv, float(b), "geometric-mean amplitude of two identical components vs single")
